@@ -78,7 +78,7 @@ func runBehaviour(b *Behaviour, opts *MatOpts, src string, onCall func(k int, c 
 	}
 	b.Def = nd
 	for i := len(b.Hist) - 1; i >= 0; i-- {
-		if c := b.Hist[i]; c.Op == "fault" && c.Was != nil {
+		if c := b.Hist[i]; c.Op == "fault" && c.Was != nil && c.Kind != "flow_gone" && c.Kind != "parent_gone" {
 			b.Def[c.F-1][c.N-1] = *c.Was
 		}
 	}
@@ -168,6 +168,8 @@ func runBehaviour(b *Behaviour, opts *MatOpts, src string, onCall func(k int, c 
 					return fmt.Errorf("fault without waiting run")
 				}
 				gone[tr.flowIdx[w.FlowReference().UUID]] = true
+			case "parent_gone":
+				gone[c.F] = true
 			case "node_gone", "wait_gone", "wait_dial":
 				switch c.Kind {
 				case "node_gone":
